@@ -114,7 +114,7 @@ CHECKS["C01"] = {
         {"name": "pipeline", "pkg": "internal/state", "pkgname": "state", "entry": "VerifC01Pipeline",
          "files": ["zz_verif_c01.go", "zz_verif_fixture.go"], "extra_overlay": {"internal/response/zz_verif_decode.go": "internal/response/zz_verif_decode.go"},
          "gen_stubs": [TX_STUB],
-         "params": {"quick": grid(fam=[0], n=[1], k=[2]) + grid(fam=[1], n=[1], k=[3]) + grid(fam=[1, 2], n=[2], k=[2]), "thorough": grid(fam=[0], n=[1, 2], k=[2, 3]) + grid(fam=[1, 2], n=[1, 2], k=[4])},
+         "params": {"quick": grid(fam=[0], n=[1], k=[2]) + grid(fam=[1], n=[1], k=[3]) + grid(fam=[1, 2], n=[2], k=[2]) + grid(fam=[3], n=[3], k=[3]), "thorough": grid(fam=[0], n=[1, 2], k=[2, 3]) + grid(fam=[1, 2], n=[1, 2], k=[4]) + grid(fam=[3], n=[3, 4], k=[4])},
          "cover": []},
     ],
     "stubs": ["state.UserInterface -> verifUser (applies updates to the originating state immediately, queues for the others)", "db.Client/Transaction -> verifMiniDB (only ClearRecentFlagInMailboxOnMessage; any other call = stub missing)", "logrus -> no-op"],
@@ -130,6 +130,11 @@ CHECKS["C05"] = {
          "gen_stubs": [TX_STUB],
          "params": {"quick": grid(fam=[1], n=[1], k=[3, 4]) + grid(fam=[1], n=[2], k=[3]), "thorough": grid(fam=[1], n=[1, 2], k=[4, 5])},
          "cover": ["expunge-held-back", "expunge-queued", "exists-queued"]},
+        {"name": "merge", "pkg": "internal/state", "pkgname": "state", "entry": "VerifC01Pipeline",
+         "files": ["zz_verif_c01.go", "zz_verif_fixture.go"], "extra_overlay": {"internal/response/zz_verif_decode.go": "internal/response/zz_verif_decode.go"},
+         "gen_stubs": [TX_STUB],
+         "params": {"quick": grid(fam=[3], n=[3], k=[3]), "thorough": grid(fam=[3], n=[3, 4], k=[4])},
+         "cover": ["expunge-queued", "fetch-queued"]},
     ],
     "stubs": CHECKS["C01"]["stubs"],
     "outside": ["the session-level command table (which commands flush with permitExpunge) - see DESIGN", "the [EXPUNGEISSUED] response code rendering"],
@@ -165,7 +170,7 @@ CHECKS["C03"] = {
          "cover": [], "max_steps": 400000000},
         {"name": "commands", "pkg": "internal/state", "pkgname": "state", "entry": "VerifC03Commands",
          "files": ["zz_verif_c03.go", "zz_verif_fixture.go", "zz_verif_world.go"], "with": ["verifdb"], "gen_stubs": [TX_STUB],
-         "params": {"quick": grid(nA=[1, 2]), "thorough": grid(nA=[1, 2, 3])},
+         "params": {"quick": grid(nA=[1, 2], peer=[0], lean=[0]) + grid(nA=[1], peer=[1], lean=[0]) + grid(nA=[2], peer=[1], lean=[1]), "thorough": grid(nA=[1, 2, 3], peer=[0], lean=[0]) + grid(nA=[1, 2], peer=[1], lean=[0])},
          "cover": ["command-ok"]},
     ],
     "stubs": ["internal/verifdb relational model behind db.Client (byte-exact flag values, AUTOINCREMENT UIDs, UNIQUE constraints)", "state.Connector -> succeeds, no remote updates", "utils.QueryWrapper -> recorder that accepts every statement; row iteration reports no rows"],
@@ -180,6 +185,11 @@ CHECKS["C02"] = {
          "files": ["zz_verif_c02.go", "zz_verif_fixture.go", "zz_verif_world.go"], "with": ["verifdb"], "gen_stubs": [TX_STUB],
          "params": {"quick": grid(fam=[1], n=[1], k=[4, 5]) + grid(fam=[2], n=[1], k=[3, 4]) + grid(fam=[3], n=[1], k=[4]), "thorough": grid(fam=[1, 2, 3], n=[1, 2], k=[5]) + grid(fam=[0], n=[1], k=[5]) + grid(fam=[1], n=[1], k=[6])},
          "cover": ["update-delivered"]},
+        {"name": "connector", "pkg": "internal/backend", "pkgname": "backend", "entry": "VerifC02Connector", "files": ["zz_verif_backend.go", "zz_verif_c02.go"],
+         "with": ["verifdb", "state_export"],
+         "gen_stubs": [{"pkgpath": "github.com/ProtonMail/gluon/connector", "iface": "Connector", "type": "verifConnBase"}],
+         "params": {"quick": grid(k=[1, 2, 3]), "thorough": grid(k=[3, 4])},
+         "cover": ["mailboxes-updated", "flags-updated", "deleted"]},
     ],
     "stubs": ["internal/verifdb relational model", "state.Connector stub (no remote updates)", "state.UserInterface stub: FIFO, loss-free per-state update queue (async.QueuedChannel is goroutine based: outside)"],
     "outside": ["the goroutine-backed queue between writer and session", "histories longer than k events", "more than two sessions"],
@@ -224,7 +234,8 @@ CHECKS["C15"] = {
     "harnesses": [
         {"name": "search", "pkg": "internal/state", "pkgname": "state", "entry": "VerifC15Search",
          "files": ["zz_verif_c15.go", "zz_verif_c17.go"] + STATE_FILES, "with": ["verifdb"], "gen_stubs": [TX_STUB],
-         "params": {"quick": grid(n=[1, 2], depth=[0]), "thorough": grid(n=[1, 2, 3], depth=[0]) + grid(n=[1, 2], depth=[1])},
+         "params": {"quick": grid(n=[1, 2], depth=[0], sets=[0], comp=[0]) + grid(n=[2, 3], depth=[0], sets=[1], comp=[0]) + grid(n=[1], depth=[1], sets=[0], comp=[1]),
+                    "thorough": grid(n=[1, 2, 3], depth=[0], sets=[0], comp=[0]) + grid(n=[1, 2], depth=[1], sets=[0], comp=[2]) + grid(n=[2, 3, 4], depth=[0], sets=[1], comp=[0])},
          "cover": ["search-ok"]},
     ],
     "stubs": ["internal/verifdb relational model", "runtime.NumCPU -> 1 / parallelism disabled (sequential branch of parallel.DoContext)"],
